@@ -253,6 +253,10 @@ func (e *SpecEnv) resolveType(t spec.TypeExpr) (types.Type, string, bool) {
 		return nil, "(Array Int Bool)", true
 	case "relang":
 		return nil, "RegLan", true
+	case "edgeset":
+		if _, ok := vc.S.Extra["Node"]; ok {
+			return nil, "(Array Node (Array Node Bool))", true
+		}
 	}
 	if _, ok := vc.S.Extra[t.Name]; ok {
 		return nil, t.Name, true
@@ -369,6 +373,12 @@ func (e *SpecEnv) ident(x *spec.Ident) Val {
 			if e.loop.rng != nil && e.loop.rng.Visited != nil {
 				return Val{Sort: e.loop.rng.Visited.Sort, Term: e.state().cells[e.loop.rng.Visited]}
 			}
+			// inside the callback of maps.Iterate: the keys delivered before the current one
+			for f := e.fr; f != nil; f = f.parent {
+				if f.activeIter != nil && f.activeIter.rng != nil {
+					return Val{Sort: f.activeIter.rng.Visited.Sort, Term: e.state().cells[f.activeIter.rng.Visited]}
+				}
+			}
 			return e.fail(x, "visited: not a range-over-map loop")
 		}
 	}
@@ -379,6 +389,14 @@ func (e *SpecEnv) ident(x *spec.Ident) Val {
 		if ok {
 			return v
 		}
+	}
+	if g, ok := e.vc.W.Ghosts[name]; ok {
+		_, srt, ok := e.resolveType(g.Type)
+		if !ok {
+			return e.fail(x, "ghost %s: unknown type %s", name, g.Type)
+		}
+		c := e.vc.ghostCell(e.state(), name, srt)
+		return Val{Sort: srt, Term: e.state().cells[c]}
 	}
 	// package-level constants and variables
 	if obj := e.lookupObj(name); obj != nil {
@@ -988,6 +1006,31 @@ func (e *SpecEnv) call(x *spec.Call) Val {
 			}
 			return Val{T: sig.Results().At(0).Type(), Term: "(" + name + " " + strings.Join(ts, " ") + ")"}
 		}
+	case "edge":
+		if need(3) {
+			return Val{T: B, Term: fmt.Sprintf("(select (select %s %s) %s)", argT(0), argT(1), argT(2))}
+		}
+	case "addEdge":
+		if need(3) {
+			return Val{Sort: "(Array Node (Array Node Bool))", Term: fmt.Sprintf("(store %s %s (store (select %s %s) %s true))", argT(0), argT(1), argT(0), argT(1), argT(2))}
+		}
+	case "noEdges":
+		if need(0) {
+			return Val{Sort: "(Array Node (Array Node Bool))", Term: "((as const (Array Node (Array Node Bool))) ((as const (Array Node Bool)) false))"}
+		}
+	case "elems":
+		// elems(xs): the set of elements of a []string
+		if need(1) {
+			v := arg(0)
+			if v.T == nil || vc.S.Sort(v.T) != "Slice_String" {
+				return e.fail(x, "elems() needs a []string")
+			}
+			return Val{Sort: "(Array String Bool)", Term: vc.elemsOf(e.termOf(v))}
+		}
+	case "union":
+		if need(2) {
+			return Val{Sort: "(Array String Bool)", Term: vc.setUnion(argT(0), argT(1))}
+		}
 	case "emptyset":
 		if need(0) {
 			return Val{Sort: "(Array String Bool)", Term: "((as const (Array String Bool)) false)"}
@@ -1176,7 +1219,19 @@ func (w *World) declareSpecFn(vc *VC, sf *spec.SpecFunc) {
 			as = append(as, "?"+p.Name)
 		}
 		app := "(" + name + " " + strings.Join(as, " ") + ")"
-		vc.axioms = append(vc.axioms, fmt.Sprintf("(forall (%s) (! (= %s %s) :pattern (%s)))", strings.Join(params, " "), app, bt, app))
+		if rs == "Bool" {
+			// two implications instead of an equality: every quantifier of the body then has a definite polarity
+			vc.axioms = append(vc.axioms, fmt.Sprintf("(forall (%s) (! (=> %s %s) :pattern (%s)))", strings.Join(params, " "), app, bt, app))
+			// the folding direction gets no explicit pattern: when the body is existential its bound variables
+			// become universal here and must be allowed to take part in trigger selection
+			if strings.HasPrefix(bt, "(exists ") {
+				vc.axioms = append(vc.axioms, fmt.Sprintf("(forall (%s) (=> %s %s))", strings.Join(params, " "), bt, app))
+			} else {
+				vc.axioms = append(vc.axioms, fmt.Sprintf("(forall (%s) (! (=> %s %s) :pattern (%s)))", strings.Join(params, " "), bt, app, app))
+			}
+		} else {
+			vc.axioms = append(vc.axioms, fmt.Sprintf("(forall (%s) (! (= %s %s) :pattern (%s)))", strings.Join(params, " "), app, bt, app))
+		}
 		return
 	}
 	vc.decls = append(vc.decls, fmt.Sprintf("(define-fun %s (%s) %s %s)", name, strings.Join(params, " "), rs, bt))
@@ -1384,6 +1439,11 @@ func (e *SpecEnv) compileLoc(x spec.Expr) (*Loc, types.Type) {
 			return nil, nil
 		}
 	case *spec.Ident:
+		if g, ok := vc.W.Ghosts[x.Name]; ok {
+			if _, srt, ok := e.resolveType(g.Type); ok {
+				return &Loc{Cell: vc.ghostCell(e.state(), x.Name, srt)}, nil
+			}
+		}
 		if e.fr != nil {
 			if loc, t, ok := e.fr.localLoc(x.Name); ok {
 				return loc, t
